@@ -27,7 +27,7 @@ FUNCTIONS = [
 ]
 BOUNDS = {
     "quick": dict(store_m="0..3", batch_k="1..2", composition_depth=2, modes=4),
-    "thorough": dict(store_m="0..5", batch_k="1..3", composition_depth=3, modes=4),
+    "thorough": dict(store_m="0..5 (batch 3 up to store 4)", batch_k="1..3", composition_depth="<=3 batch insertions after the initial one, <=6 samples in total", modes=4),
 }
 SCOPE = ("Likelihoods are symbolic reals (ties and below/equal/above-threshold cases are branches of the path tree, "
          "not samples); identity of a sample is a concrete tag carried in a field and in its density row.")
@@ -238,9 +238,9 @@ def units(tier):
         rem_sizes = [1, 2, 3, 4]
         comps = [(2, (2,)), (2, (1, 2))]
     else:
-        add_sizes = [(0, 3), (1, 3), (2, 3), (3, 3), (4, 2), (4, 3), (5, 2), (5, 3)]
+        add_sizes = [(0, 3), (1, 3), (2, 3), (3, 3), (4, 2), (4, 3), (5, 2)]
         rem_sizes = [1, 2, 3, 4, 5, 6]
-        comps = [(2, (2,)), (3, (2, 2)), (2, (2, 1, 2)), (3, (3, 2))]
+        comps = [(2, (2,)), (2, (1, 2)), (3, (2,)), (2, (2, 2)), (2, (1, 1, 1))]
     opts = dict(logic="QF_LRA")
     for strict in (False, True):
         for (m, k) in add_sizes:
@@ -248,12 +248,12 @@ def units(tier):
                 continue
             us.append(Unit(f"add[m={m},k={k},strict={strict}]", make_add(m, k, strict), MODS, opts,
                            expect_cover=["end"], mutants=["flip"] if (m, k) == add_sizes[2] else [], twin_runs=30,
-                           witness_every=7 if tier == "quick" else 50))
+                           witness_every=7 if tier == "quick" else 500, time_budget_s=600 if tier == "quick" else 2400))
         for ra in (False, True):
             for m in rem_sizes:
                 us.append(Unit(f"remove[m={m},strict={strict},replace_all={ra}]", make_remove(m, strict, ra), MODS, opts,
                                expect_cover=["end"], mutants=["flip"] if m == 2 else [], twin_runs=30, witness_every=5))
             for (k0, ks) in comps:
                 us.append(Unit(f"compose[k0={k0},ks={ks},strict={strict},replace_all={ra}]", make_compose(k0, ks, strict, ra),
-                               MODS, opts, expect_cover=["end"], twin_runs=30, witness_every=25))
+                               MODS, opts, expect_cover=["end"], twin_runs=30, witness_every=25 if tier == "quick" else 500, time_budget_s=600 if tier == "quick" else 2400))
     return us
